@@ -156,3 +156,54 @@ def analyse(prog, func, string_param_reader=None):
 
     C.forward_dataflow(func, frozenset(), transfer, lambda a, b: a | b)
     return out, sites[0]
+
+
+# ---- result buffers of data sources are left NUL-terminated -------------------------------------
+def result_terminated(prog, func, pidx=0, _memo=None, _depth=0):
+    """(ok, offending node or None): on every path to a return of func, the buffer passed as
+    parameter pidx is either untouched or its last write is a terminating one."""
+    _memo = _memo if _memo is not None else {}
+    key = (func.key, pidx)
+    if key in _memo:
+        return _memo[key]
+    _memo[key] = (True, None)
+    if func.cfg_error or pidx >= len(func.params):
+        return (True, None)
+    pid = func.params[pidx]['id']
+    from .dataflow import PtrTaint
+    pt = PtrTaint(func, lambda n: False, {pid})
+    bad = [None]
+
+    def into(e):
+        return e is not None and pt.is_derived(e)
+
+    def transfer(st, e):
+        if e.k == 'CallExpr':
+            name = e.get('callee')
+            args = e.ch[1:]
+            if name in TERMINATING and TERMINATING[name] < len(args) and into(args[TERMINATING[name]]):
+                return 'term'
+            if name in NON_TERMINATING and NON_TERMINATING[name][0] < len(args) and into(args[NON_TERMINATING[name][0]]):
+                return 'dirty'
+            t = prog.func(name, func.tu) if name else None
+            if t is not None and t is not func and _depth < 5:
+                for i, a in enumerate(args):
+                    if a is not None and into(a) and i < len(t.params) and 'const' not in t.params[i]['ct'].split('*')[0]:
+                        ok, _ = result_terminated(prog, t, i, _memo, _depth + 1)
+                        return 'term' if ok else 'dirty'
+            return st
+        if e.k == 'BinaryOperator' and e['op'] == '=':
+            l = strip(e.ch[0])
+            if (l.k == 'ArraySubscriptExpr' and into(l.ch[0])) or (l.k == 'UnaryOperator' and l['op'] == '*' and into(l.ch[0])):
+                v = strip(e.ch[1])
+                return 'term' if (v is not None and v.get('v') == 0) else 'dirty'
+        if e.k == 'ReturnStmt':
+            if st == 'dirty' and bad[0] is None:
+                bad[0] = e
+        return st
+
+    order = {'clean': 0, 'term': 1, 'dirty': 2}
+    C.forward_dataflow(func, 'clean', transfer, lambda a, b: a if order[a] >= order[b] else b)
+    res = (bad[0] is None, bad[0])
+    _memo[key] = res
+    return res
